@@ -242,6 +242,8 @@ def run_scenario(res, scenario, max_paths=64, max_decisions=60, timeout_ms=20000
     for kind, taken, out in outcomes:
         if kind == "bound":
             res.unknown.append({"what": tag + "path bound hit: %s" % out})
+        elif kind == "infeasible":
+            res.unknown.append({"what": tag + "a path ended with contradictory assumptions (vacuous): %s" % out})
     if store and len(res.samples) < 3:
         pc, triples = store[0][0], store[0][1]
         if triples:
@@ -264,7 +266,7 @@ def run_scenario(res, scenario, max_paths=64, max_decisions=60, timeout_ms=20000
                 try:
                     try:
                         ok = all(solve.evalf(c, F.env) for c in pc)
-                    except (KeyError, ZeroDivisionError, OverflowError, ValueError, ArithmeticError):
+                    except (KeyError, ZeroDivisionError, OverflowError, ValueError, ArithmeticError, TypeError):
                         ok = False
                     if not ok:
                         continue
@@ -290,7 +292,7 @@ def run_scenario(res, scenario, max_paths=64, max_decisions=60, timeout_ms=20000
                                 if math.isnan(s1) or math.isinf(s1):
                                     continue        # float overflow while *evaluating* the term (huge exp arguments): not a comparison
                                 same = close(s1, float(g2), 1e-6)
-                        except (KeyError, ZeroDivisionError, OverflowError, ValueError, ArithmeticError) as e:
+                        except (KeyError, ZeroDivisionError, OverflowError, ValueError, ArithmeticError, TypeError) as e:
                             continue
                         res.fidelity += 1
                         if not same:
